@@ -1,9 +1,9 @@
 """C08 harness: error messages are total and complete.
 
 Failing conversions are produced by the real converters from values whose SHAPE is symbolic: one or two faults, chosen by
-the solver among 15 fault sites (wrong kind at depth 1-4, missing / unexpected / duplicated keys, mixed-kind unexpected keys,
+the solver among 18 fault sites (wrong kind at depth 1-4, missing / unexpected / duplicated keys, mixed-kind unexpected keys,
 failing and raising predicates, raising validation hook, wrong tuple length, sums inside products inside sums, fused
-single-child chains), with concrete sentinel leaves (rendering would realise symbolic ones).  Each injected fault carries
+single-child chains, several missing fields one of which has aliases, union alternatives with one description), with concrete sentinel leaves (rendering would realise symbolic ones).  Each injected fault carries
 the tokens the text must contain, in nesting order.  Oracle: containment rules read off the property statement.
 Verdict codes: 1 rendering raised; 2 empty text; 4 a second rendering differs; 5 rendering changed the tree; 6 a failing path
 component / expectation / name / value / cause message is missing from the text or out of order; 7 the conversion did not
@@ -37,6 +37,20 @@ class Mid(PaneBase, in_format=('struct', 'tuple')):
     al: int = field(default=0, aliases=('alias_al',))
 
 
+class Req(PaneBase):
+    w: int = field(aliases=('W',))
+    v: int
+    o: int = 0
+
+
+TB = t.TypeVar('TB')
+
+
+class Box(PaneBase, t.Generic[TB]):
+    item: TB = field(aliases=('value',))
+    label: str = ''
+
+
 def _pred(v):
     if v == 13:
         raise ZeroDivisionError("PREDMSG13")
@@ -48,6 +62,8 @@ TOP = {
     'pos': t.Annotated[int, Condition(_pred, 'is_lucky')],
     'deep': {'x': {'y': {'z': int}}},
     'seq': t.Tuple[int, t.List[int]],
+    'req': Req,
+    'box': t.Optional[t.Union[Box[int], Box[t.List[int]]]],       # two alternatives with the same description
 }
 CONV = make_converter(TOP)
 
@@ -68,7 +84,7 @@ def sentinel(k):
 
 def valid():
     return {'top': {'leaf': {'n': 1, 's': 'ok'}, 'items': [1, {'n': 2}], 'alt': 1, 'al': 0}, 'pos': 5,
-            'deep': {'x': {'y': {'z': 3}}}, 'seq': (1, [2, 3])}
+            'deep': {'x': {'y': {'z': 3}}}, 'seq': (1, [2, 3]), 'req': {'w': 1, 'v': 2}, 'box': {'item': 1}}
 
 
 def inject(d, site, k, reqs):
@@ -125,6 +141,20 @@ def inject(d, site, k, reqs):
         d['top']['alias_al'] = 4
         reqs.append(['top', 'Duplicate key', 'alias_al'])
         reqs.append(['top', 'al', 'an int'])
+    elif site == 16:
+        d['req'] = {'o': 1} if k % 2 == 0 else {}
+        reqs.append(['Missing required field'])
+        reqs.append(['req', "v'"])
+        reqs.append(['req', "w"])
+    elif site == 17:
+        d['box'] = {'value': s if k != 1 else 'SENTbox'}         # neither an int nor a list of ints: both alternatives fail, each its own way
+        reqs.append(['box', 'Expected one of', 'value', 'an int'])
+        reqs.append(['box', 'Expected one of', 'value', 'sequence of ints'])
+    elif site == 18:
+        d['box'] = {'item': ['SENTel'], 'label': 0}
+        reqs.append(['box', 'item', 'an int'])
+        reqs.append(['box', 'item', '0', 'an int', 'SENTel'])
+        reqs.append(['box', 'label', 'a string'])
     elif site == 14:
         d['seq'] = (s if k != 3 else 'x', [2, s])
         reqs.append(['seq', '0', 'an int'])
@@ -149,7 +179,7 @@ def check_render(s1, k1, s2, k2):
     if s2 != 0 and s2 != s1:
         # (faults on the same branch can mask each other: only combine compatible sites)
         if not ((s1 == 11 and s2 in (1, 2, 3, 4, 5, 6, 12, 15)) or (s2 == 11 and s1 in (1, 2, 3, 4, 5, 6, 12, 15))
-                or (s1 in (6, 15) and s2 in (6, 15))
+                or (s1 in (6, 15) and s2 in (6, 15)) or (s1 in (17, 18) and s2 in (17, 18))
                 or (s1 in (1, 2, 3, 12) and s2 in (1, 2, 3, 12) and (s1 == 12 or s2 == 12 or (s1 in (1, 2) and s2 in (1, 2)))) or (s1 in (7, 8) and s2 in (7, 8)) or (s1 in (9, 10) and s2 in (9, 10))):
             inject(d, s2, k2, reqs)
     if not reqs:
@@ -189,7 +219,7 @@ def check_render(s1, k1, s2, k2):
     return -1
 
 
-for _s1 in range(16):
+for _s1 in range(19):
     for _s2 in (0, 3, 9):
         for _k in range(4):
             try:
@@ -198,11 +228,11 @@ for _s1 in range(16):
                 pass
 
 _T = '''
-@obligation(pre="{lo} <= s1 <= {hi} and 0 <= k1 <= 3 and 0 <= s2 <= 15 and 0 <= k2 <= 3 and (s2 == 0 or k2 == 0 or s2 in (1, 4, 5, 9, 14)) and (k1 == 0 or s1 in (1, 4, 5, 9, 14))",
+@obligation(pre="{lo} <= s1 <= {hi} and 0 <= k1 <= 3 and 0 <= s2 <= 18 and 0 <= k2 <= 3 and (s2 == 0 or k2 == 0 or s2 in (1, 4, 5, 9, 14, 16, 17)) and (k1 == 0 or s1 in (1, 4, 5, 9, 14, 16, 17))",
             witnesses={wit}, timeout=300)
 def body_render_{lo}(s1: int, k1: int, s2: int, k2: int) -> int:
     """rendering the error of a conversion with one or two injected faults (first fault site {lo}..{hi}) never raises, is stable, and names every failing path component, expectation, key and cause"""
     return check_render(s1, k1, s2, k2)
 '''
-for (_lo, _hi) in ((0, 1), (2, 3), (4, 5), (6, 8), (9, 10), (11, 12), (13, 15)):
+for (_lo, _hi) in ((0, 1), (2, 3), (4, 5), (6, 8), (9, 10), (11, 12), (13, 15), (16, 16), (17, 17), (18, 18)):
     exec(_T.format(lo=_lo, hi=_hi, wit=(0, -1) if _lo == 0 else (-1,)))
